@@ -83,7 +83,7 @@ Report == PrintT(<<"VERIF", ToJson([pairs |-> Len(PairSeq)])>>)
 ---------------------------------------------------------------------------
 VARIABLES pr, pvia, perr
 pvars == <<pr, pvia, perr, cs, via, stage, err>>
-PInit == /\ pr \in AllPairs /\ pvia \in Vias /\ perr = (PairOutcome(pr) = "error")
+PInit == /\ pr \in AllPairs /\ pvia \in {"decode", "cli"} /\ perr = (PairOutcome(pr) = "error")
          /\ cs = NoCase /\ via = "cli" /\ stage = 0 /\ err = FALSE
 PNext == UNCHANGED pvars
 GenInit == /\ pr = <<NoCase, NoCase>> /\ pvia = "cli" /\ perr = FALSE /\ cs = NoCase /\ via = "cli" /\ stage = 0 /\ err = FALSE
